@@ -67,7 +67,7 @@ def p2_run(ctx):
     cfile = os.path.join(cdir, key + ".json")
     lines_path = os.path.join(cdir, key + ".tsv")
     import fcntl
-    with open(os.path.join(cdir, "lock"), "w") as lk:
+    with open(os.path.join(cdir, key + ".lock"), "w") as lk:
         fcntl.flock(lk, fcntl.LOCK_EX)
         if os.path.exists(cfile) and os.path.exists(lines_path):
             res = json.load(open(cfile))
@@ -89,17 +89,47 @@ def p2_run(ctx):
                 raise vlib.CheckError("p2 harness shard timed out")
             if p.returncode != 0:
                 raise vlib.CheckError("p2 harness shard failed rc=%s\n%s" % (p.returncode, se.decode("utf8", "replace")[-3000:]))
-            outs.append(so.decode("utf8", "replace"))
-        so = "".join(outs)
+            outs.append(so)
+        so = b"".join(outs).decode("utf8", "replace")
         open(lines_path, "w").write(so)
-        rc, mo, me = vlib.sh2([mcheck], inp=so, timeout=3000)
-        if rc != 0:
-            raise vlib.CheckError("p2 mcheck failed rc=%s\n%s\n%s" % (rc, mo[-2000:], me[-2000:]))
-        res = vlib.parse_mcheck(mo, so)
+        # one model-checker process per shard (histories are independent); statistics are summed
+        mps = []
+        for o in outs:
+            mp = subprocess.Popen([mcheck], stdin=subprocess.PIPE, stdout=subprocess.PIPE, stderr=subprocess.PIPE)
+            mps.append((mp, o))
+        import threading
+        mres = [None] * len(mps)
+
+        def feed(i, mp, o):
+            try:
+                mres[i] = mp.communicate(o, timeout=3000) + (mp.returncode,)
+            except subprocess.TimeoutExpired:
+                mp.kill()
+                mres[i] = (b"", b"timeout", 99)
+        ths = [threading.Thread(target=feed, args=(i, mp, o)) for i, (mp, o) in enumerate(mps)]
+        for t in ths:
+            t.start()
+        for t in ths:
+            t.join()
+        res = None
+        for mo, me, rc in mres:
+            if rc != 0:
+                raise vlib.CheckError("p2 mcheck failed rc=%s\n%s\n%s" % (rc, mo.decode("utf8", "replace")[-2000:], me.decode("utf8", "replace")[-2000:]))
+            r = vlib.parse_mcheck(mo.decode("utf8", "replace"), "")
+            if res is None:
+                res = r
+            else:
+                for k, v in r["stats"].items():
+                    res["stats"][k] = res["stats"].get(k, 0) + v
+                res["mismatches"] += r["mismatches"]
+                res["specviols"] += r["specviols"]
+                res["samples"] += r["samples"]
+        res["samples"] = res["samples"][:40]
+        res["nlines"] = so.count("\n")
         res["harness_s"] = round(time.time() - t0, 1)
         # keep the cache small
         for f in sorted(os.listdir(cdir)):
-            if f != "lock" and not f.startswith(key) and time.time() - os.path.getmtime(os.path.join(cdir, f)) > 6 * 3600:
+            if not f.endswith(".lock") and not f.startswith(key) and time.time() - os.path.getmtime(os.path.join(cdir, f)) > 6 * 3600:
                 os.remove(os.path.join(cdir, f))
         json.dump(res, open(cfile, "w"))
         res["cached"] = False
